@@ -360,6 +360,13 @@ def rule_topk_tdigest(ctx: Ctx) -> None:
     cm = prog.func(TD, "_Centroid.merge")
     ok = len(stmts_matching(cm, "new_mean = min(max(new_mean, lo), hi)")) == 1 and len(stmts_matching(cm, "total = self.count + other.count")) == 1 and "(self.mean, other.mean) if self.mean <= other.mean else (other.mean, self.mean)" in unparse(cm.node)
     ctx.ob("C20-6", "G6", cm, "merged mean clamped", ok, "a merged centroid's mean is clamped between the two means it came from (means never leave the observed range) and its count is the sum")
+    cp_ = td.methods["_compress"]
+    cpf = ctx.flow(cp_)
+    sorts = [nd for nd in cpf.cfg.nodes if nd.kind == "stmt" and isinstance(nd.ast, ast.Expr) and isinstance(nd.ast.value, ast.Call) and path_of(nd.ast.value.func) == "self._centroids.sort"
+             and any(k.arg == "key" and "mean" in unparse(k.value) for k in nd.ast.value.keywords)]
+    loops_ = [nd for nd in cpf.cfg.nodes if nd.kind == "for" and path_of(nd.ast.iter) == "self._centroids"]
+    okc = len(sorts) == 1 and len(loops_) == 1 and not always_before(ctx, cp_, lambda x: x is sorts[0], lambda x: x is loops_[0])
+    ctx.ob("C20-6", "G2", cp_, sorts[0].ast if sorts else None, okc, "TDigest._compress sorts the centroids by mean before its single merging pass — every caller (flush, merge) may hand it an unordered list, and quantile() walks the result in order")
     fl = td.methods["_flush"]
     ok = any(unparse(s).replace(" ", "") == "self._centroids.append(_Centroid(mean=value,count=1))" for s in walk_stmts(fl.node.body)) and any(path_of(c.func) == "self._buffer.clear" for c in calls_in(fl.node)) and any(path_of(c.func) == "self._compress" for c in calls_in(fl.node))
     ctx.ob("C20-6", "G2", fl, "buffer → centroids", ok, "TDigest._flush turns every buffered value into a unit centroid before clearing the buffer")
@@ -485,11 +492,12 @@ def run(ctx: Ctx) -> None:
     ctx.guarded(rule_index_sketches)
     ctx.guarded(rule_topk_tdigest)
     ctx.guarded(rule_reservoir_merkle)
-    for r, k in (("C20-1", 4), ("C20-2", 10), ("C20-3", 14), ("C20-4", 3), ("C20-5", 5), ("C20-6", 5), ("C20-7", 4), ("C20-8", 10)):
+    for r, k in (("C20-1", 4), ("C20-2", 10), ("C20-3", 14), ("C20-4", 3), ("C20-5", 5), ("C20-6", 6), ("C20-7", 4), ("C20-8", 10)):
         ctx.floor(r, k)
 
 
 MUTANTS = [
+    ("tdigest-compress-does-not-sort", TD, "        # Sort centroids by mean\n        self._centroids.sort(key=lambda c: c.mean)\n", "", "C20-6"),
     ("topk-merge-error-max", TOPK, "                self._counters[counter.item].error += counter.error\n            else:", "                self._counters[counter.item].error = max(self._counters[counter.item].error, counter.error)\n            else:", "C20-5"),
     ("cms-clear-aliases-rows", CMS, "        for row in range(self._depth):\n            for col in range(self._width):\n                self._counters[row][col] = 0\n        self._total_count = 0", "        self._counters = [[0] * self._width] * self._depth\n        self._total_count = 0", "C20-2"),
     ("merkle-update-skips-equal-get", MK, "        self._data[key] = value\n        if self._data:", "        if self._data.get(key) == value:\n            return\n        self._data[key] = value\n        if self._data:", "C20-8"),
